@@ -62,16 +62,20 @@ type c08Prog struct {
 	PkgPath []string `json:"pkgpath,omitempty"`
 	Kind    string   `json:"kind"`
 	GMW     bool     `json:"gmw,omitempty"` // compile for utils.TargetGMW (gates stably sorted by level)
+	// SymbolIDs preloads Params.SymbolIDs (what Params.LoadSymbolIDs does from a file)
+	SymbolIDs map[string]int `json:"symbol_ids,omitempty"`
+	Symbols   []string       `json:"symbols,omitempty"` // intern family: the symbols in program order
 }
 
 type c08Obs struct {
-	Circ    string   `json:"circ"`
-	Bristol string   `json:"bristol"`
-	SSA     string   `json:"ssa"`
-	Err     string   `json:"err"`
-	SSAText string   `json:"ssa_text,omitempty"` // only in the output of the reuse child
-	Eval    string   `json:"eval,omitempty"`     // only in the output of the reuse child
-	Mutated []string `json:"mutated,omitempty"`  // exported Params fields changed by this compilation
+	Circ    string         `json:"circ"`
+	Bristol string         `json:"bristol"`
+	SSA     string         `json:"ssa"`
+	Err     string         `json:"err"`
+	SSAText string         `json:"ssa_text,omitempty"` // only in the output of the reuse child
+	Eval    string         `json:"eval,omitempty"`     // only in the output of the reuse child
+	Mutated []string       `json:"mutated,omitempty"`  // exported Params fields changed by this compilation
+	SymTab  map[string]int `json:"symtab,omitempty"`   // Params.SymbolIDs after the compilation (intern family)
 	ssaText string
 	circ    *circuit.Circuit
 }
@@ -112,6 +116,9 @@ func c08Params(p *c08Prog, w *c08Writer) *utils.Params {
 	if p.GMW {
 		params.Target = utils.TargetGMW
 	}
+	for k, v := range p.SymbolIDs {
+		params.SymbolIDs[k] = v
+	}
 	return params
 }
 
@@ -131,6 +138,12 @@ func c08CompileWith(cc *compiler.Compiler, params *utils.Params, w *c08Writer, p
 			}
 		}
 		sort.Strings(obs.Mutated)
+		if p.Kind == "intern" && params != nil {
+			obs.SymTab = map[string]int{}
+			for k, v := range params.SymbolIDs {
+				obs.SymTab[k] = v
+			}
+		}
 	}()
 	w.b = new(bytes.Buffer)
 	c08Quiet(func() {
@@ -960,7 +973,7 @@ var c08DirectedWidthPrograms = []string{
 
 func c08KindRank(kind string) int {
 	switch kind {
-	case "const-widths":
+	case "const-widths", "intern":
 		return 0
 	case "alias-clash":
 		return 1
@@ -1076,6 +1089,43 @@ func c08ParamsSnapshot(p *utils.Params) map[string]string {
 			}
 		default:
 			out[f.Name] = fmt.Sprintf("%#v", fv.Interface())
+		}
+	}
+	return out
+}
+
+// ---------------------------------------------------------------- the intern() builtin
+
+// intern(sym) returns the id of the symbol; a new symbol gets the next id and is stored in
+// Params.SymbolIDs (the one write to the configuration that C08_params_readonly admits).  The VALUE
+// written must be a function of the program: ids are handed out in program order.  Programs with 3, 6
+// and 12 distinct symbols (ids become $N constants of listing and circuit), with a fresh table and
+// with a preloaded one (what Params.LoadSymbolIDs produces, with a gap).
+var c08InternNames = []string{"alpha", "beta", "gamma", "delta", "epsilon", "zeta", "eta", "theta", "iota", "kappa", "lambda", "mu"}
+
+func c08InternPrograms() []*c08Prog {
+	var out []*c08Prog
+	for _, n := range []int{3, 6, 12} {
+		for variant := 0; variant < 2; variant++ {
+			var sb strings.Builder
+			sb.WriteString("package main\n\nfunc main(a, b int32) int32 {\n\tr := a\n")
+			var syms []string
+			for i := 0; i < n; i++ {
+				sym := c08InternNames[(i*5+variant*3)%len(c08InternNames)]
+				if n < 12 {
+					sym = c08InternNames[(i+variant*4)%len(c08InternNames)]
+				}
+				syms = append(syms, sym)
+				sb.WriteString("\tr = (r + intern(" + sym + ")) ^ b\n")
+			}
+			// a repeated symbol must get the id it already has
+			sb.WriteString("\tr = r + intern(" + syms[0] + ")\n\treturn r\n}\n")
+			p := &c08Prog{Name: fmt.Sprintf("intern-%d-symbols", n), Src: sb.String(), Kind: "intern", Symbols: syms}
+			if variant == 1 {
+				p.Name += "-preloaded"
+				p.SymbolIDs = map[string]int{"omega": 0, "sigma": 1, syms[1]: 4}
+			}
+			out = append(out, p)
 		}
 	}
 	return out
@@ -1493,6 +1543,7 @@ func runC08(c *Ctx) error {
 	for i, src := range c08DirectedWidthPrograms {
 		corpus = append(corpus, &c08Prog{Name: fmt.Sprintf("widths-directed-%02d", i), Src: src, Kind: "const-widths"})
 	}
+	corpus = append(corpus, c08InternPrograms()...)
 	nwidth := c.N(16, 80)
 	for i := 0; i < nwidth; i++ {
 		corpus = append(corpus, c08GenWidthProgram(grng.Fork(), i))
@@ -1577,7 +1628,7 @@ func runC08(c *Ctx) error {
 				k = kLow
 			}
 		}
-		if p.Kind == "const-widths" && first.Err == "" {
+		if (p.Kind == "const-widths" || p.Kind == "intern") && first.Err == "" {
 			// a 10% minority ordering is missed by 96 compilations with probability 4e-5
 			k = c.N(96, 200)
 		}
@@ -1697,7 +1748,7 @@ func runC08(c *Ctx) error {
 			}
 			distinct[o.key()]++
 		}
-		nontrivial := (r.g != nil && r.g.maxFan() >= 2) || (p.Kind == "const-widths" && r.fresh[0].Err == "")
+		nontrivial := (r.g != nil && r.g.maxFan() >= 2) || ((p.Kind == "const-widths" || p.Kind == "intern") && r.fresh[0].Err == "")
 		c.Eval(p.Name, nontrivial)
 		for range r.fresh[1:] {
 			c.nEval++
@@ -1742,8 +1793,14 @@ func runC08(c *Ctx) error {
 			} else if a.Err != b.Err {
 				key = "c08:unexplained:error-differs"
 			}
-			if key == "c08:unexplained:output-differs" && a.Err == "" && b.Err == "" && a.SSA == b.SSA && a.Circ != b.Circ && p.Kind != "const-widths" {
+			if key == "c08:unexplained:output-differs" && a.Err == "" && b.Err == "" && a.SSA == b.SSA && a.Circ != b.Circ && p.Kind != "const-widths" && p.Kind != "intern" {
 				key = "c08:same-listing:circuit-differs"
+			}
+			if p.Kind == "intern" {
+				key = "c08:intern:symbol-ids-differ"
+				if a.Circ != b.Circ {
+					key += ":circuit-differs"
+				}
 			}
 			if p.Kind == "const-widths" && key == "c08:unexplained:output-differs" {
 				key = "c08:same-constant-two-widths:listing-differs"
@@ -1769,7 +1826,29 @@ func runC08(c *Ctx) error {
 					"output_a":        map[string]string{"circ": a.Circ, "bristol": a.Bristol, "ssa": a.SSA, "err": a.Err},
 					"output_b":        map[string]string{"circ": b.Circ, "bristol": b.Bristol, "ssa": b.SSA, "err": b.Err},
 					"result_a_on_3_5": c08Eval(a.circ), "result_b_on_3_5": c08Eval(b.circ),
+					"symbol_ids_a": a.SymTab, "symbol_ids_b": b.SymTab,
 					"ssa_diff_excerpt": c08DiffExcerpt(a.ssaText, b.ssaText)})
+		}
+
+		// property oracle 5 (intern family, fresh table): ids are handed out in program order
+		if p.Kind == "intern" && len(p.SymbolIDs) == 0 {
+			for _, o := range r.fresh {
+				if o.Err != "" || o.SymTab == nil {
+					continue
+				}
+				bad := ""
+				for i, sym := range p.Symbols {
+					if id, ok := o.SymTab[sym]; !ok || id != i {
+						bad = fmt.Sprintf("%s has id %d, expected %d", sym, id, i)
+						break
+					}
+				}
+				if bad != "" {
+					c.Fail("c08:intern:ids-not-in-program-order", fmt.Sprintf("%s: with a fresh symbol table %s", p.Name, bad),
+						map[string]interface{}{"program": p, "symbol_ids": o.SymTab})
+					break
+				}
+			}
 		}
 
 		// property oracle 4: a compilation does not write its configuration (SymbolIDs is the
